@@ -129,16 +129,45 @@ def gen_class(rng: random.Random, idx: int, bases: list[str], mode: str, init, k
     return lines, seen_default, own_names
 
 
+UNIT_NAMES = ["c18ua", "c18ub", "c18uc"]
+UNIT_FORMS = ["module", "package", "submodule", "reexport"]
+# module: <unit>.py | package: <unit>/__init__.py holds the classes | submodule: <unit>/__init__.py is empty, the classes live in
+# <unit>/core.py | reexport: like submodule, and <unit>/__init__.py re-exports the classes of core
+
+
+def _import_of(rng: random.Random, unit: str, form: str) -> tuple[str, str]:
+    """How a dependent unit reaches the classes of ``unit``: (import line with a {} for the imported names or None, base prefix)."""
+    styles = []
+    if form in ("module", "package", "reexport"):
+        styles += [(f"from {unit} import {{}}", ""), (f"import {unit}", f"{unit}."), (f"import {unit} as x{unit[-1]}", f"x{unit[-1]}.")]
+    if form in ("submodule", "reexport"):
+        styles += [(f"from {unit}.core import {{}}", ""), (f"import {unit}.core", f"{unit}.core."),
+                   (f"import {unit}.core as x{unit[-1]}", f"x{unit[-1]}."), (f"from {unit} import core as x{unit[-1]}", f"x{unit[-1]}.")]
+    return rng.choice(styles)
+
+
 def gen_case(rng: random.Random, combo: tuple | None = None) -> dict:
-    """A hierarchy of 2..5 classes (depth <= 3), in one module or spread over two modules of a package."""
+    """A hierarchy of 2..5 classes (depth <= 3): in one module, spread over two modules of a package, or spread over 2..3
+    separately loaded top-level packages / modules (a *loading session*: dependencies first, one loader or one shared collection)."""
     n = rng.randint(2, 5)
     depth: list[int] = []
     specs = []
     all_frozen = rng.random() < 0.12
-    two_modules = rng.random() < 0.2
-    home = [rng.randrange(2) if two_modules else 0 for _ in range(n)]
-    if two_modules:
+    layout = rng.random()
+    two_modules = layout < 0.2
+    multi = 0.2 <= layout < 0.46
+    nunits = 1
+    if multi:
+        nunits = min(n, rng.choice([2, 2, 3]))
+    home = [rng.randrange(2) if two_modules else rng.randrange(nunits) if multi else 0 for _ in range(n)]
+    if two_modules or multi:
         home[0] = 0
+    if multi and nunits - 1 not in home:
+        home[-1] = nunits - 1            # the last unit is never empty (the forced init/kw_only class then lives in a dependent unit)
+    if multi and nunits == 3 and 1 not in home:
+        home[rng.randrange(1, n - 1)] = 1
+    forms = [rng.choice(UNIT_FORMS) for _ in range(nunits)] if multi else []
+    reach: dict[tuple[int, int], tuple[str, str]] = {}
     has_default: list[bool] = []
     names_of: list[list[str]] = []
     dc_like: list[bool] = []
@@ -162,21 +191,34 @@ def gen_case(rng: random.Random, combo: tuple | None = None) -> dict:
         frozen = True if all_frozen else (rng.choice([True, False]) if rng.random() < 0.05 else None)
         inh_default = any(has_default[j] for j in bases_idx)
         inh_names = [nm for j in bases_idx for nm in names_of[j]]
-        lines, seen_default, own = gen_class(rng, i, [f"C{j}" for j in bases_idx], mode, init, kw_only, frozen, inh_default, inh_names)
+        base_texts = []
+        for j in bases_idx:
+            prefix = ""
+            if multi and home[j] != home[i]:
+                key = (home[i], home[j])
+                if key not in reach:
+                    reach[key] = _import_of(rng, UNIT_NAMES[home[j]], forms[home[j]])
+                prefix = reach[key][1]
+            base_texts.append(f"{prefix}C{j}")
+        lines, seen_default, own = gen_class(rng, i, base_texts, mode, init, kw_only, frozen, inh_default, inh_names)
         has_default.append(seen_default if mode != "plain" else inh_default)
         names_of.append(list(dict.fromkeys(inh_names + (own if mode != "plain" else []))))
         dc_like.append(mode != "plain" or inherits_dc)
         texts.append(lines)
         specs.append({"bases": bases_idx, "mode": mode})
-    nested = not two_modules and rng.random() < 0.12
+    nested = not two_modules and not multi and rng.random() < 0.12
+    if multi:
+        return _multi_unit_case(rng, n, nunits, home, forms, reach, specs, texts)
     if two_modules:
+        # the module holding the bases is processed first (m0) or last (m1) when the package is walked in name order
+        mod = ["m0", "m1"] if rng.random() < 0.5 else ["m1", "m0"]
         files = {"pk/__init__.py": "", "pk/m0.py": HEADER, "pk/m1.py": HEADER}
         imported = sorted({j for i in range(n) if home[i] == 1 for j in specs[i]["bases"] if home[j] == 0})
         if imported:
-            form = rng.choice(["from pk.m0 import {}", "from .m0 import {}"])
-            files["pk/m1.py"] += form.format(", ".join(f"C{j}" for j in imported)) + "\n\n"
+            form = rng.choice(["from pk.{} import {}", "from .{} import {}"])
+            files[f"pk/{mod[1]}.py"] += form.format(mod[0], ", ".join(f"C{j}" for j in imported)) + "\n\n"
         for i in range(n):
-            files[f"pk/m{home[i]}.py"] += "\n".join(texts[i]) + "\n\n"
+            files[f"pk/{mod[home[i]]}.py"] += "\n".join(texts[i]) + "\n\n"
         return {"files": files, "package": "pk"}
     src = HEADER
     for i in range(n):
@@ -185,3 +227,36 @@ def gen_case(rng: random.Random, combo: tuple | None = None) -> dict:
         inner, _d, _o = gen_class(rng, 9, [], "dataclass", None, rng.choice([None, True]), None, False, [])
         src += "class Outer:\n" + "\n".join("    " + ln for ln in inner) + "\n\n"
     return {"files": {"m.py": src}, "package": "m"}
+
+
+def _multi_unit_case(rng: random.Random, n: int, nunits: int, home: list[int], forms: list[str],  # noqa: PLR0913
+                     reach: dict, specs: list[dict], texts: list[list[str]]) -> dict:
+    files: dict[str, str] = {}
+    where = []
+    for u in range(nunits):
+        name, form = UNIT_NAMES[u], forms[u]
+        rel = {"module": f"{name}.py", "package": f"{name}/__init__.py"}.get(form, f"{name}/core.py")
+        where.append(rel)
+        head = HEADER
+        for (dep, src), (line, _prefix) in sorted(reach.items()):
+            if dep == u:
+                names = sorted({f"C{j}" for i in range(n) if home[i] == u for j in specs[i]["bases"] if home[j] == src})
+                head += line.format(", ".join(names)) + "\n"
+        files[rel] = head + "\n"
+    for i in range(n):
+        files[where[home[i]]] += "\n".join(texts[i]) + "\n\n"
+    for u in range(nunits):
+        name, form = UNIT_NAMES[u], forms[u]
+        own = [f"C{i}" for i in range(n) if home[i] == u]
+        if form == "submodule" or (form == "reexport" and not own):
+            files[f"{name}/__init__.py"] = ""
+        elif form == "reexport":
+            files[f"{name}/__init__.py"] = rng.choice([f"from {name}.core import {{}}\n", "from .core import {}\n"]).format(", ".join(own))
+    # a loading order in which every unit comes after the units it imports from (random among the admissible ones)
+    deps = {u: {src for (dep, src) in reach if dep == u} for u in range(nunits)}
+    order: list[int] = []
+    while len(order) < nunits:
+        ready = [u for u in range(nunits) if u not in order and deps[u] <= set(order)]
+        order.append(rng.choice(ready))
+    return {"files": files, "package": "multi", "load": [UNIT_NAMES[u] for u in order],
+            "loaders": rng.choice(["same", "same", "shared-collections"])}
